@@ -77,3 +77,49 @@ Proof.
   - destruct (String.eqb (t_name t) obj); simpl in H4; [|discriminate]. destruct (type_has_field t "_federation"); [reflexivity | simpl in H4; discriminate].
   - destruct (String.eqb (t_name t) obj); simpl in H4; [|discriminate]. destruct (type_has_field t "_federation"); simpl in H4; [exact H4 | discriminate].
 Qed.
+
+(** ** validateFederatedObjects: symmetric in the services *)
+Lemma existsb_perm : forall {A} (f : A -> bool) l l', Permutation l l' -> existsb f l = existsb f l'.
+Proof.
+  intros A f l l' H. induction H; simpl; auto.
+  - rewrite IHPermutation. reflexivity.
+  - destruct (f x), (f y); reflexivity.
+  - congruence.
+Qed.
+
+Lemma existsb_map : forall {A B} (g : A -> B) (f : B -> bool) l, existsb f (map g l) = existsb (fun x => f (g x)) l.
+Proof. intros A B g f l. induction l as [|x t IH]; simpl; auto. rewrite IH. reflexivity. Qed.
+
+Theorem fedobjs_ok_naming : forall per per' m,
+  Permutation (map snd per) (map snd per') -> fedobjs_ok per m = fedobjs_ok per' m.
+Proof.
+  intros per per' m H. unfold fedobjs_ok. apply forallb_ext'. intros mt.
+  assert (H1 : federated_somewhere per (t_name mt) = federated_somewhere per' (t_name mt)).
+  { unfold federated_somewhere.
+    rewrite <- (existsb_map snd (fun s => existsb (fun t => String.eqb (t_name t) (t_name mt) && type_has_field t "_federation") s) per).
+    rewrite <- (existsb_map snd (fun s => existsb (fun t => String.eqb (t_name t) (t_name mt) && type_has_field t "_federation") s) per').
+    apply existsb_perm; exact H. }
+  assert (H2 : federated_everywhere per (t_name mt) = federated_everywhere per' (t_name mt)).
+  { unfold federated_everywhere.
+    rewrite <- (forallb_map snd (fun s => forallb (fun t => negb (String.eqb (t_name t) (t_name mt)) || type_has_field t "_federation") s) per).
+    rewrite <- (forallb_map snd (fun s => forallb (fun t => negb (String.eqb (t_name t) (t_name mt)) || type_has_field t "_federation") s) per').
+    apply forallb_perm; exact H. }
+  rewrite H1, H2. reflexivity.
+Qed.
+
+(** acceptance: a federated object is federated by every service that has it *)
+Theorem fedobjs_ok_sound : forall per m,
+  fedobjs_ok per m = true ->
+  forall mt, In mt m -> t_name mt <> "Query" -> t_name mt <> "Mutation" ->
+  forall a ta, In a per -> In ta (snd a) -> t_name ta = t_name mt -> type_has_field ta "_federation" = true ->
+  forall b tb, In b per -> In tb (snd b) -> t_name tb = t_name mt -> type_has_field tb "_federation" = true.
+Proof.
+  intros per m H mt Hmt Hq Hm a ta Ha Hta Hna Hfa b tb Hb Htb Hnb.
+  unfold fedobjs_ok in H. rewrite forallb_forall in H. specialize (H _ Hmt).
+  apply String.eqb_neq in Hq, Hm. rewrite Hq, Hm in H. simpl in H.
+  assert (Hs : federated_somewhere per (t_name mt) = true).
+  { unfold federated_somewhere. apply existsb_exists. exists a. split; [exact Ha|]. apply existsb_exists. exists ta.
+    split; [exact Hta|]. rewrite Hna, String.eqb_refl, Hfa. reflexivity. }
+  rewrite Hs in H. simpl in H. unfold federated_everywhere in H. rewrite forallb_forall in H. specialize (H _ Hb).
+  rewrite forallb_forall in H. specialize (H _ Htb). rewrite Hnb, String.eqb_refl in H. simpl in H. exact H.
+Qed.
